@@ -101,7 +101,8 @@ def explore_config(rep, task, clauses=None, pid=PID):
     def fn(c):
         return ctrl.run_block(c, NP, NL, K, pred, jac, atd, ns, inject)
 
-    paths = explore(fn, max_paths=400000, prefix=prefix)
+    runaway = lambda r: bool(r.get('exc')) and 'does not terminate' in str(r.get('exc'))
+    paths = explore(fn, max_paths=400000, prefix=prefix, stop=runaway)
     mx = z3.Int('maxiter')
     pre = [z3.And(mx >= 0, mx <= K)]
     if prefix and not paths:
@@ -133,8 +134,11 @@ def explore_config(rep, task, clauses=None, pid=PID):
             if a.hash() not in seen:
                 seen.add(a.hash())
                 pre.append(a)
-    r = coverage_certificate(paths, pre, name=f'{name}:coverage')
-    rep.ob(f'{name}:coverage', r)
+    if paths and runaway(paths[-1].result):
+        rep.note(f'{name}: exploration stopped at a run that does not terminate; no coverage claimed for this configuration')
+    else:
+        r = coverage_certificate(paths, pre, name=f'{name}:coverage')
+        rep.ob(f'{name}:coverage', r)
     nviol = 0
     seen = set()
     for p in paths:
